@@ -192,3 +192,27 @@ package nsx
 //vc:func (*rulesPair).equalizeGroups$1$1
 //vc:  inline
 //vc:  assert[C04] after "url := fmt.Sprintf(" @addressesChangedInTheBoundGroup callresult == fmt.Sprintf("/policy/api/v1/infra/domains/default/groups/%s/ip-address-expressions/%s?action=%s", ga.Id, ga.Expression[0].Id, action)
+
+// ---- C04: left-over objects are removed in every run ----
+// diffConfig ends with the removal of every service and group of the device
+// that no rule of the target uses - also when nothing else changed (an earlier
+// run may have been cut off between the rule requests and this clean-up).
+//vc:ghost var svcCleanupDone bool
+//vc:ghost var grpCleanupDone bool
+//vc:ghost var lastObjDeleted string
+//vc:func diffConfig
+//vc:  init svcCleanupDone = false
+//vc:  init grpCleanupDone = false
+//vc:  assign after "removeUnusedServices()" svcCleanupDone = true
+//vc:  assign after "removeUnusedGroups()" grpCleanupDone = true
+//vc:  ensures[C04] @leftOverObjectsRemovedInEveryRun svcCleanupDone && grpCleanupDone
+//vc:func diffConfig$3
+//vc:  inline
+//vc:  assign after "changes = append(changes, change{" lastObjDeleted = sa.Id
+//vc:  assert[C04] at "changes = append(changes, change{" @unusedServiceDeletedByItsId !sa.needed && url == "/policy/api/v1/infra/services/" + sa.Id
+//vc:  invariant[C04] 1 "for _, sa := range a.Services" @everyUnusedServiceDeleted forall k int :: { a.Services[k] } k == rangeindex && 0 <= k && !a.Services[k].needed ==> lastObjDeleted == a.Services[k].Id
+//vc:func diffConfig$4
+//vc:  inline
+//vc:  assign after "changes = append(changes, change{" lastObjDeleted = ga.Id
+//vc:  assert[C04] at "changes = append(changes, change{" @unusedGroupDeletedByItsId !ga.needed && url == "/policy/api/v1/infra/domains/default/groups/" + ga.Id
+//vc:  invariant[C04] 1 "for _, ga := range a.Groups" @everyUnusedGroupDeleted forall k int :: { a.Groups[k] } k == rangeindex && 0 <= k && !a.Groups[k].needed ==> lastObjDeleted == a.Groups[k].Id
